@@ -195,6 +195,13 @@ StringDictionaryRPHTFC::StringDictionaryRPHTFC(IteratorDictString *it,
     ushort ptrSubstr = 0;
     uint codeSubstr = 0;
 
+    // Substrings pending at the end of a header. They are registered once the
+    // whole sequence is encoded: the bits which follow them in the decoder's
+    // chunk (internal strings, padding, the next header) are not known before
+    std::vector<size_t> tailBegin;
+    std::vector<size_t> tailLimit;
+    std::vector<std::vector<uchar>> tailSubstr;
+
     coderHT = new StatCoder(codewordsHT);
 
     for (bucket = 1; bucket <= buckets; bucket++) {
@@ -222,6 +229,9 @@ StringDictionaryRPHTFC::StringDictionaryRPHTFC(IteratorDictString *it,
           maxcomplength = bytes;
       } while (headers[bucket][ptrB - 1] != '\0');
 
+      // Bits used for encoding the header
+      size_t bitsHeader = 8 * (size_t)bytes + offset;
+
       {
         // Encoding the compressed header length
         if (offset > 0)
@@ -241,43 +251,18 @@ StringDictionaryRPHTFC::StringDictionaryRPHTFC(IteratorDictString *it,
 
       // Adding an ending decodeable string  (if required)
       if (textSubstr.size() > 0) {
-        // #######################
         // It is necessary to read up to TABLEBITSO bits for indexing the
-        // substring in the DecodingTable
+        // substring in the DecodingTable: its first bit and the header it
+        // belongs to are kept until the sequence is complete
+        tailBegin.push_back(8 * (bytesStrings - bytes) + bitsHeader -
+                            ptrSubstr);
+        tailLimit.push_back(bytesStrings - bytes);
+        tailSubstr.push_back(textSubstr);
 
-        if (offset > 0) {
-          // The substring is also padded
-          codeSubstr = (codeSubstr << (8 - offset));
-          ptrSubstr += (8 - offset);
-          offset = 0;
-        }
-
-        if (ptrSubstr > TABLEBITSO) {
-          codeSubstr = codeSubstr >> (ptrSubstr - TABLEBITSO);
-          ptrSubstr = TABLEBITSO;
-        } else {
-          if (ptrB >= ptrE) {
-            // No internal strings follow the header (it is the last element):
-            // it is directly padded
-            codeSubstr = (codeSubstr << (TABLEBITSO - ptrSubstr));
-            ptrSubstr = TABLEBITSO;
-          } else {
-            // The first symbol encoding the internal strings is enough for
-            // padding because it uses, at least, 16 bits
-            uint remaining = TABLEBITSO - ptrSubstr;
-            uint codeword = intStrings[ptrB];
-
-            if (remaining < bitsrp) {
-              codeSubstr = (codeSubstr << remaining) |
-                           (codeword >> (bitsrp - remaining));
-            } else {
-              codeSubstr = (codeSubstr << bitsrp) | codeword;
-              codeSubstr = codeSubstr << (remaining - bitsrp);
-            }
-
-            ptrSubstr = TABLEBITSO;
-          }
-        }
+        textSubstr.clear();
+        lenSubstr.clear();
+        ptrSubstr = 0;
+        codeSubstr = 0;
       }
 
       // Processing the internal strings
@@ -294,17 +279,32 @@ StringDictionaryRPHTFC::StringDictionaryRPHTFC(IteratorDictString *it,
 
     delete[] tmp;
 
-    // Registering the substring still pending after the last header
-    if (textSubstr.size() > 0)
-      builderHT->insertEndingSubstr(&codeSubstr, &ptrSubstr, &textSubstr,
-                                    &lenSubstr);
-
     // bytesStrings++;
     xblStrings.push_back(bytesStrings + 1);
     blStrings = new LogSequence(&xblStrings, bits(bytesStrings + 1));
 
     maxcomplength +=
         4; // The value is increased because advanced readings in decoding...
+
+    // Registering the substrings pending after the headers with the chunk
+    // that decodeHeader reads for them: the bits of the sequence within the
+    // window of the header, and zeroes beyond it
+    for (size_t i = 0; i < tailSubstr.size(); i++) {
+      size_t limit = tailLimit[i] + maxcomplength;
+      if (limit > bytesStrings)
+        limit = bytesStrings;
+
+      uint code = 0;
+      for (size_t pos = tailBegin[i]; pos < tailBegin[i] + TABLEBITSO; pos++) {
+        code = code << 1;
+        if ((pos / 8) < limit)
+          code |= (textStrings[pos / 8] >> (7 - (pos % 8))) & 1;
+      }
+
+      ushort full = TABLEBITSO;
+      std::vector<ushort> none;
+      builderHT->insertEndingSubstr(&code, &full, &(tailSubstr[i]), &none);
+    }
   }
 
   tableHT = builderHT->getTable();
